@@ -245,6 +245,115 @@ fn scale_list(rng: &mut Rng, n_random: usize) -> Vec<u32> {
     v
 }
 
+/// one fresh conversion reported as a run of length one
+fn probe(s: &mut Session, mask: u32, uv: f64) {
+    if !(0.0..=10_000_000.0).contains(&uv) {
+        return;
+    }
+    let v = (uv / 1e6) as f32;
+    let r = guarded(|| {
+        let mut q = Quantizer::new();
+        set_scale(&mut q, mask);
+        q.convert(v)
+    });
+    match r {
+        Ok(c) => {
+            let u = units(v);
+            s.out.line(&format!(
+                "{{\"op\":\"run\",\"m\":{},\"lo\":{},\"hi\":{},\"n\":{},\"sk\":{},\"fmin\":{},\"fmax\":{},\"eu\":{}}}",
+                mask, u, u, c.note_num, key(c.stairstep), frac_units(&c), frac_units(&c), err_ulps(&c, v)
+            ));
+            s.stats.add("boundary_probes", 1);
+        }
+        Err(m) => {
+            s.panic_event(&format!("fresh convert(key {}) scale {}", key(v), mask), &m);
+            s.alive = true;
+        }
+    }
+}
+
+/// inputs just beyond the tie tolerance on both sides of every decision point of the rule, in every
+/// octave: the start of each allowed note's bucket, the end of a bucket whose successor is forbidden,
+/// and the midpoint between distant allowed neighbours
+pub fn drive_boundaries(s: &mut Session, rng: &mut Rng, thorough: bool) {
+    let semi = 1e6 / 12.0;
+    let offs = [12.0f64, 30.0, 70.0];
+    let scales = scale_list(rng, if thorough { 600 } else { 40 });
+    for m in scales {
+        s.start();
+        let notes: Vec<u32> = (0..=131u32).filter(|n| m & (1 << (n % 12)) != 0).collect();
+        for (i, &n) in notes.iter().enumerate() {
+            let vn = n as f64 * semi;
+            for o in offs {
+                probe(s, m, vn - o);
+                probe(s, m, vn + o);
+            }
+            if let Some(&nx) = notes.get(i + 1) {
+                if nx > n + 1 {
+                    // bucket end (one semitone above n) and, if further apart, the midpoint
+                    for o in offs {
+                        probe(s, m, vn + semi - o);
+                        probe(s, m, vn + semi + o);
+                    }
+                    if nx > n + 2 {
+                        let mid = (vn + nx as f64 * semi) / 2.0;
+                        for o in offs {
+                            probe(s, m, mid - o);
+                            probe(s, m, mid + o);
+                        }
+                    }
+                }
+            }
+        }
+        s.stats.add("distinct_scales", 1);
+    }
+}
+
+/// random walk over edits and conversions placed relative to the note last reported: inside its
+/// bucket, in the two hysteresis margins, just outside them, far away; edits of that note's pitch
+/// class (forbid, re-allow) with and without conversions in between
+pub fn drive_margins(s: &mut Session, rng: &mut Rng, thorough: bool) {
+    let semi = 1.0f64 / 12.0;
+    for _ in 0..(if thorough { 600 } else { 60 }) {
+        s.start();
+        if rng.chance(1, 2) {
+            random_scale_edit(s, rng);
+        }
+        let mut last: u8 = s.convert((rng.unit() * 10.0) as f32).unwrap_or(0);
+        for _ in 0..50 {
+            let base = last as f64 * semi;
+            match rng.below(12) {
+                0 => {
+                    s.forbid(&[last % 12]);
+                }
+                1 => {
+                    s.allow(&[last % 12]);
+                }
+                2 => {
+                    // forbid and re-allow without a conversion in between: the history must survive
+                    s.forbid(&[last % 12]);
+                    s.allow(&[last % 12]);
+                }
+                3 => random_scale_edit(s, rng),
+                k => {
+                    let v = match k {
+                        4 => base + rng.unit() * semi,                          // inside the bucket
+                        5 => base - (0.01 + rng.unit() * 0.08) * semi,          // lower margin
+                        6 => base + semi + (0.01 + rng.unit() * 0.08) * semi,   // upper margin
+                        7 => base - (0.11 + rng.unit() * 0.2) * semi,           // just below the window
+                        8 => base + semi + (0.11 + rng.unit() * 0.2) * semi,    // just above the window
+                        9 => base + (rng.unit() * 4.0 - 2.0) * semi,
+                        _ => rng.unit() * 10.2 - 0.1,
+                    };
+                    if let Some(n) = s.convert(v as f32) {
+                        last = n;
+                    }
+                }
+            }
+        }
+    }
+}
+
 pub fn drive_sweep(s: &mut Session, rng: &mut Rng, thorough: bool, shard: u32) {
     if thorough {
         // all 4095 scales x all 10,000,001 microvolt inputs, 16 shards
@@ -419,7 +528,11 @@ pub fn record(driver: &str, seed: u64, thorough: bool, out: &mut Out) -> Stats {
     };
     match name {
         "sweep" => drive_sweep(&mut s, &mut rng, thorough, shard),
-        "hyst" => drive_hyst(&mut s, &mut rng, thorough),
+        "hyst" => {
+            drive_hyst(&mut s, &mut rng, thorough);
+            drive_margins(&mut s, &mut rng, thorough);
+        }
+        "boundaries" => drive_boundaries(&mut s, &mut rng, thorough),
         _ => {
             eprintln!("unknown quantizer driver {}", driver);
             std::process::exit(2)
